@@ -900,6 +900,13 @@ impl<'a> Run<'a> {
                 return Ok(false); // precondition of Dir::rename
             }
         }
+        // a directory moved into its own subtree is an error in its own right: when another error applies as well
+        // (name in use, invalid name) either kind is a correct answer
+        if let (Some(n), Resolved::At(dp, _)) = (snode, &dres) {
+            if !errs.is_empty() && self.model.node(n).is_dir() && self.model.is_ancestor_or_self(n, *dp) && !errs.contains(&EK::InvalidInput) {
+                errs.push(EK::InvalidInput);
+            }
+        }
         if !errs.is_empty() {
             ok_allowed = false;
         }
@@ -909,11 +916,8 @@ impl<'a> Run<'a> {
                     self.trace.excluded_known += 1;
                     return Ok(false);
                 }
-                if !self.cfg.wants(Aspect::Outcome) {
-                    // not this property's business, and the model cannot follow a tree with a cycle
-                    return Ok(false);
-                }
                 // a directory cannot be moved into its own subtree: no in-memory tree allows it
+                self.trace.hit("rename_into_own_subtree");
                 ok_allowed = false;
                 errs.push(EK::InvalidInput);
                 plan = None;
